@@ -76,7 +76,7 @@ func genCase(t *rapid.T) Case {
 	n := rapid.IntRange(3, 25).Draw(t, "n")
 	for i := 0; i < n; i++ {
 		op := Op{Client: rapid.IntRange(0, c.Clients-1).Draw(t, "client")}
-		op.Kind = rapid.SampledFrom([]string{"get", "get", "set", "set", "setbad", "settyped", "settyped", "update", "updatebad", "subscribe", "rawget", "set2", "update2", "subscribe2", "stats", "trace", "unsubscribe", "subscribe", "subscribe2", "terminate2", "stalecancel2", "unsubscribe", "brokensub"}).Draw(t, "kind")
+		op.Kind = rapid.SampledFrom([]string{"get", "get", "set", "set", "setbad", "settyped", "settyped", "update", "updatebad", "subscribe", "rawget", "set2", "update2", "subscribe2", "stats", "trace", "unsubscribe", "subscribe", "subscribe2", "terminate2", "stalecancel2", "unsubscribe", "brokensub", "churnsubs"}).Draw(t, "kind")
 		switch op.Kind {
 		case "set", "update", "set2", "update2":
 			op.Value = rapid.Int32Range(0, 1<<30).Draw(t, "v")
@@ -85,6 +85,8 @@ func genCase(t *rapid.T) Case {
 		case "settyped":
 			op.ValHex, op.Desc = wrongTyped(t)
 			op.ByID = rapid.Bool().Draw(t, "byid")
+		case "churnsubs":
+			op.Value = rapid.Int32Range(0, 7).Draw(t, "order")
 		case "unsubscribe":
 			op.Value = rapid.Int32Range(0, 3).Draw(t, "which") // which of the client's subscribers leaves
 		case "stats", "trace":
@@ -388,6 +390,33 @@ func checkCase(c Case) error {
 			go s.run()
 			cl.subs2 = append(cl.subs2, s)
 			vt.Label("subscriber-on-second-object")
+		case "churnsubs":
+			// two or three subscribers come through this client's proxy and all
+			// leave again, in the order they came or another; whoever subscribes
+			// afterwards gets one event per write like everybody else
+			if len(cl.subs) > 0 {
+				continue
+			}
+			n := 2 + int(op.Value)%2
+			var tmp []*subscriber
+			for k := 0; k < n; k++ {
+				cancel, ch, err := cl.proxy.SubscribeDelay()
+				if err != nil {
+					return vt.Violationf("C14:subscribe-error", "step %d: SubscribeDelay failed: %v", i, err)
+				}
+				sb := &subscriber{ch: ch, cancel: cancel}
+				go sb.run()
+				tmp = append(tmp, sb)
+			}
+			if op.Value/2%2 == 1 { // the last to come leaves first
+				for l, r := 0, len(tmp)-1; l < r; l, r = l+1, r-1 {
+					tmp[l], tmp[r] = tmp[r], tmp[l]
+				}
+			}
+			for _, sb := range tmp {
+				sb.cancel()
+			}
+			vt.Label("subscribers-came-and-left")
 		case "brokensub":
 			// one more connection registers for the change events and then stops
 			// listening (its reading side is shut down: what the server writes to
